@@ -824,13 +824,42 @@ class C01(UnitChanSpec):
         except W.WorkloadError:
             return {"cfg": cfg, "units": []}
         units = gen_history(rng, pool)
-        if idx % 3000 == 11 and units:
+        if idx % 1500 == 11 and units and rng.random() < 0.7:
+            # (mostly on an otherwise conformant sequence, so that size is the
+            # only thing in play)
+            for _try in range(6):
+                cand = conformant_sequence(rng, pool)
+                if cand and cand[0].get("lvl") not in (64, 65, 66):
+                    units = cand
+                    break
+        if idx % 1500 == 11 and units:
             # "long history" arm: hundreds to thousands of tiny padding /
             # auxiliary units inside the sequence (counts and offsets far beyond
             # what 14-unit histories reach)
             at = 1 + rng.randrange(len(units))
-            n = rng.choice([300, 1000, 5000])
-            filler = [{"t": rng.choice(["X", "A"]), "n": rng.choice([0, 0, 1, 2]), "fill": (i * 7) & 0xFF} for i in range(n)]
+            if rng.random() < 0.5:
+                n = rng.choice([300, 1000, 5000])
+                filler = [{"t": rng.choice(["X", "A"]), "n": rng.choice([0, 0, 1, 2]), "fill": (i * 7) & 0xFF} for i in range(n)]
+            else:
+                # exactly as much filler as makes the unit at ``at`` (often a
+                # repeated sequence header) straddle a 4 KiB / 8 KiB / 16 KiB /
+                # 64 KiB stream offset
+                if at < len(units) and units[at]["t"] != "H" and units[0]["t"] == "H" and rng.random() < 0.7:
+                    units.insert(at, dict(units[0]))
+                try:
+                    _d, ab, _m = assemble(pool, units)
+                    before = sum(a.length for a in ab[:at])
+                    ulen = ab[at].length if at < len(ab) else 13
+                except Exception:  # noqa: BLE001 — malformed template: plain filler
+                    before, ulen = 0, 13
+                bnd = rng.choice([4096, 8192, 8192, 16384, 65536])
+                total = bnd - rng.randrange(1, max(2, ulen)) - before
+                filler = []
+                while total >= 26:
+                    filler.append({"t": "X", "n": 0, "fill": 0})
+                    total -= 13
+                if total >= 13:
+                    filler.append({"t": "A", "n": total - 13, "fill": 5})
             units[at:at] = filler
         return {"cfg": cfg, "units": units}
 
@@ -960,26 +989,7 @@ def conformant_sequence(rng, pool):
     return tmpl
 
 
-def twin_config(cfg, which):
-    """Variant ``which`` of a configuration for the twin-sequence arm."""
-    cfg["pic_kind"] = "mid"
-    cfg["mix"] = None
-    if which == 1:
-        cfg["luma_exc"], cfg["cd_exc"] = ((1 << 10) - 1, (1 << 10) - 1) if cfg["luma_exc"] != (1 << 10) - 1 else (255, 255)
-        cfg["luma_off"], cfg["cd_off"] = 0, (cfg["cd_exc"] + 1) // 2
-    elif which == 2:
-        cfg["luma_exc"], cfg["cd_exc"] = (1 << 12) - 1, 255
-        cfg["luma_off"], cfg["cd_off"] = 0, 128
-    elif which == 3 and not cfg.get("qm"):
-        w2 = (cfg["wavelet"] + 1) % 7
-        if cfg["wavelet_ho"] == cfg["wavelet"]:
-            cfg["wavelet_ho"] = w2
-        cfg["wavelet"] = w2
-    elif which == 4:
-        cfg["color"] = [1, 2, 3] if cfg.get("color") != [1, 2, 3] else None
-    elif which == 5:
-        cfg["luma_off"] = 16 if cfg["luma_off"] != 16 else 0
-    return cfg
+twin_config = W.twin_config
 
 
 class C10(UnitChanSpec):
@@ -1024,7 +1034,7 @@ class C10(UnitChanSpec):
                 # sequence (sample depth / slice layout / wavelet / colour spec):
                 # anything a decoder wrongly carries over from the previous
                 # sequence still fits, but gives different pictures
-                cfg = twin_config(dict(self.pool_cfgs[cands[0]]), rng.randrange(6) if s else 0)
+                cfg = twin_config(dict(self.pool_cfgs[cands[0]]), rng.randrange(8) if s else 0)
             try:
                 pool = get_pool(cfg)
             except W.WorkloadError:
